@@ -10,7 +10,8 @@ from . import _reg, _auth
 
 ID = "C06"
 P = "Webauthn.Props.C06."
-THEOREMS = [P + n for n in ("binding_auth", "bitflip_auth", "binding_registration", "append_inj_right_len")]
+THEOREMS = [P + n for n in ("binding_auth", "bitflip_auth", "binding_registration", "append_inj_right_len",
+                            "bitflip_reg_packed_self", "authData_of_raw")]
 LEAN_TARGETS = ["Props.C06"]
 SPEC_FILES = ["Spec/Core.lean", "Props/C03.lean"]
 ASSUMPTIONS = ["PARTIAL: that a changed signature base fails verification is a cryptographic property; it appears as the named "
